@@ -11,3 +11,8 @@ Extraction "model.ml"
   spec_decode spec_decode_x encode parse_block strict decode_portable decode_asm
   compress_fast_list compress_hc_list lz4block_CompressBlockBound
   frame_spec new_writer run_writer wstep sink_bytes new_reader rstep run_reader new_creader cr_read parse_headers trace_ok cmd_compress cmd_compress_stdio cmd_uncompress parse_desc.
+
+(* the Reader pipeline checker is extracted to its own module: its names (cid, event, trace_ok)
+   coincide with those of the Writer pipeline *)
+From LZ4V Require PipeR.
+Extraction "modelr.ml" PipeR.trace_ok.
